@@ -373,13 +373,51 @@ func subOpcodes() mon.Sub {
 	}
 }
 
+// subLongMessage: one message cut into several hundred frames (and, in two
+// cases of the thorough tier, more than 2^16): whatever counts the fragments
+// of a message must not run over.
+func subLongMessage() mon.Sub {
+	return mon.Sub{
+		Name: "long-message", Required: true,
+		N: func(t string) int {
+			if t == "thorough" {
+				return 66
+			}
+			return 16
+		},
+		Do: func(c *mon.C) {
+			cfg := Config{Ctor: []string{"NewWriterSize", "NewWriterBufferSize", "GetWriter"}[c.I%3], N: []int{8, 16, 20, 128}[c.I/3%4], Side: ref.Side(c.I % 3), Ext: c.I / 2 % 3, Op: []byte{ref.OpText, ref.OpBinary}[c.I%2]}
+			frames := 260 + c.Rng.Intn(600)
+			if c.I >= 64 {
+				frames = 65536 + 300
+			}
+			var ops []wops.Op
+			for i := 0; i < frames; i++ {
+				switch c.Rng.Intn(3) {
+				case 0:
+					ops = append(ops, wops.Op{Kind: wops.WriteThrough, Sel: -1, K: 1 + c.Rng.Intn(3)})
+				case 1:
+					ops = append(ops, wops.Op{Kind: wops.Write, Sel: -1, K: 1 + c.Rng.Intn(3)}, wops.Op{Kind: wops.FlushFragment})
+				default:
+					ops = append(ops, wops.Op{Kind: wops.ReadFrom, Sel: -1, K: 1 + c.Rng.Intn(3)}, wops.Op{Kind: wops.FlushFragment})
+				}
+			}
+			ops = append(ops, wops.Op{Kind: wops.Write, Sel: 1}, wops.Op{Kind: wops.Flush}, wops.Op{Kind: wops.Write, Sel: 1}, wops.Op{Kind: wops.Flush})
+			if runSeq(c, cfg, ops, "long-message") {
+				c.Classf("%s|frames>=%d", cfg.String(), frames/256*256)
+				c.Sample(map[string]interface{}{"config": cfg.String(), "frames_in_first_message": frames})
+			}
+		},
+	}
+}
+
 func main() {
 	mon.Main(&mon.Spec{
 		Property: "C06",
 		Level:    "exploration",
 		Rule: "cases: every sequence of depth 3 (quick) / 4 (thorough) over a 30-op alphabet {Write,ReadFrom,WriteThrough} x sizes {0,1,avail-1,avail,avail+1,size,size+1,2size+3} resolved against the live buffer, Grow x 4, FlushFragment, Flush (+ a closing Flush) for 8 configurations (tiny/125/126-boundary buffers, both sides and zero state, DisableFlush, RSV2 extension, wsflate.MessageState, pooled GetWriter); " +
-			"then random sequences of up to 60 ops over all 5 constructors x sizes around the 125/126 and 65535/65536 reservation thresholds, a third of them continued through one or two Writer.Reset calls (new destination, any side, opcode, extension and flush mode; also from the middle of a message) with the model restarted as for a new writer. After EVERY call the recording destination is re-parsed by the reference parser and the contract model is checked (whole frames at call boundary, opcode/fin/rsv/mask per frame, plaintext == position-tagged accepted bytes, clean flush emits nothing, fits => one frame, DisableFlush => nothing before Flush and one frame). Plus the one-call helpers WriteMessage / Write{Client,Server}{Message,Text,Binary} x 24 sizes x 3 rounds: exactly one final frame of the given opcode, masked iff client-side, payload == the caller's bytes, caller's slice intact. Built against the poisoning pool shim (a buffer returned to the byte pool is overwritten at once), so a frame that refers to a buffer it already gave back shows the pattern on the wire. evaluations = API calls checked; distinct = (config, first two ops) / (config, length decile, op kinds).",
+			"then random sequences of up to 60 ops over all 5 constructors x sizes around the 125/126 and 65535/65536 reservation thresholds, a third of them continued through one or two Writer.Reset calls (new destination, any side, opcode, extension and flush mode; also from the middle of a message) with the model restarted as for a new writer. After EVERY call the recording destination is re-parsed by the reference parser and the contract model is checked (whole frames at call boundary, opcode/fin/rsv/mask per frame, plaintext == position-tagged accepted bytes, clean flush emits nothing, fits => one frame, DisableFlush => nothing before Flush and one frame). Plus long messages: one message cut into 260-860 frames (65836 in two cases of the thorough tier) by WriteThrough / Write+FlushFragment / ReadFrom+FlushFragment on small buffers, then a second message. Plus the one-call helpers WriteMessage / Write{Client,Server}{Message,Text,Binary} x 24 sizes x 3 rounds: exactly one final frame of the given opcode, masked iff client-side, payload == the caller's bytes, caller's slice intact. Built against the poisoning pool shim (a buffer returned to the byte pool is overwritten at once), so a frame that refers to a buffer it already gave back shows the pattern on the wire. evaluations = API calls checked; distinct = (config, first two ops) / (config, length decile, op kinds).",
 		Assumptions: []string{"reference frame parser ref.ParseFrames", "fragment boundaries are left to the implementation except in the three clauses the statement fixes", "payload bytes are a position-tagged stream so loss/duplication/reordering is visible"},
-		Subs:        []mon.Sub{subEnum(), subRandom(), subOpcodes(), subWriteMessage()},
+		Subs:        []mon.Sub{subEnum(), subRandom(), subOpcodes(), subWriteMessage(), subLongMessage()},
 	})
 }
